@@ -31,7 +31,7 @@ class DataContainer(dict):
         dt = xr.DataTree(name="data")
         for key, data in self.items():
             if not data.name:
-                data.name = key
+                data = data.rename(key)
             dt[key] = xr.DataTree(data.to_dataset())
             dt[key].attrs = {key: "_is_node", "allow_compute": self._allow_compute[key]}
 
